@@ -7,6 +7,9 @@ pub uninterp spec fn authentic_hash(number: int, h: Seq<u8>) -> bool;
 pub uninterp spec fn cp_authentic(idx: int, cp: Seq<u8>) -> bool;
 pub uninterp spec fn filtered_ok(n: u64) -> bool;                     // gate of update_min_filtered_block_number
 pub uninterp spec fn matched_ok(start: u64, count: u64) -> bool;      // gate of add_matched_blocks
+// C02: the `proved` flag of a matched-block entry (what lets a delivered body be kept and indexed without a GetBlocksProof)
+pub uninterp spec fn hash_proven_f(h: Seq<u8>) -> bool;               // h is the hash of a header proven by a verified last-state proof
+pub open spec fn flags_proven(blocks: Seq<(Byte32, bool)>) -> bool { forall|i: int| 0 <= i < blocks.len() ==> ((#[trigger] blocks[i]).1 ==> hash_proven_f(blocks[i].0@)) }
 // C06 "the block downloaded for a matching filter is the proven-chain block at that filter's height"
 pub uninterp spec fn matched_hashes_ok(start: u64, count: u64, blocks: Seq<(Byte32, bool)>) -> bool;
 pub uninterp spec fn chain_hash_at(number: int) -> Seq<u8>;           // the hash of the proven chain's block at that height
@@ -88,7 +91,8 @@ impl Storage {
     pub fn get_min_filtered_block_number(&self) -> (r: u64) ensures r == self.s_min_filtered(), r <= 0x4000_0000_0000_0000 { unimplemented!() }
     #[verifier::external_body]
     pub fn get_earliest_matched_blocks(&self) -> (r: Option<(u64, u64, Vec<(Byte32, bool)>)>)
-        ensures r.is_some() == self.s_has_matched_records() { unimplemented!() }
+        // store invariant: the proved flags of a stored record went through the gate of add_matched_blocks below
+        ensures r.is_some() == self.s_has_matched_records(), r.is_some() ==> flags_proven(r.unwrap().2@) { unimplemented!() }
     #[verifier::external_body]
     pub fn get_tip_header(&self) -> (r: Header) { unimplemented!() }
     // the finalized check point is authentic by definition (C07 mechanism; unverified)
@@ -110,7 +114,9 @@ impl Storage {
     #[verifier::external_body]
     pub fn add_matched_blocks(&self, start_number: u64, blocks_count: u64, matched_blocks: Vec<(Byte32, bool)>)
         requires matched_ok(start_number, blocks_count), matched_blocks@.len() > 0,
-                 matched_hashes_ok(start_number, blocks_count, matched_blocks@), mb_locked() /*props:C17*/ { unimplemented!() }
+                 matched_hashes_ok(start_number, blocks_count, matched_blocks@), mb_locked() /*props:C17*/,
+                 // GATE (C02): an entry is recorded as proved only for the hash of a proven header
+                 flags_proven(matched_blocks@) /*props:C02*/ { unimplemented!() }
     #[verifier::external_body]
     pub fn update_block_number(&self, block_number: u64)
         requires block_number_ok(block_number), mb_locked() /*props:C17*/ { unimplemented!() }
@@ -131,7 +137,8 @@ impl Peers {
     #[verifier::external_body]
     pub fn could_request_more_block_filters(&self, finalized_check_point_index: u32, min_filtered_block_number: u64) -> (r: bool) { unimplemented!() }
     #[verifier::external_body]
-    pub fn add_matched_blocks(&self, matched_blocks: &mut MBGuard, block_hashes: Vec<(Byte32, bool)>) { unimplemented!() }
+    pub fn add_matched_blocks(&self, matched_blocks: &mut MBGuard, block_hashes: Vec<(Byte32, bool)>)
+        requires flags_proven(block_hashes@) /*props:C02*/ { unimplemented!() }
     #[verifier::external_body]
     pub fn update_min_filtered_block_number(&self, n: u64) { unimplemented!() }
     // GATE (C06): the cache is only replaced by a vector that keeps the invariant above for the cached check point index
